@@ -48,6 +48,7 @@ ASSUMPTIONS = [
     "one .note.gnu.property section per input",
     "UINT32 (4-byte) properties; GNU_PROPERTY_STACK_SIZE / NO_COPY_ON_PROTECTED are only probed (known finding)",
     "GNU ld 2.40 aborts with an internal error on -z x86-64-baseline, so that flag is compared with the model only",
+    "the GNU-ld spec model covers the x86 property ranges; the processor-independent UINT32 AND/OR ranges (0xb0000000-0xb000ffff) are outside it",
 ]
 
 FEATURE_1_AND = 0xc0000002
@@ -445,7 +446,10 @@ def run(ctx):
     # carries one: the oracle has no answer there
     ld_broken = [i for i in range(len(info)) if "failed to create GNU property section" in ld_c[i]]
     ctx.count("oracle", "gnu-ld-fails-to-create-property-section", len(ld_broken))
-    idx = [i for i, (c, *_r) in enumerate(info) if c.in_uint32_region() and not ld_c[i].startswith("skipped") and i not in set(ld_broken)]
+    # the spec text models the x86 ranges; GNU ld treats the processor-independent ranges 0xb0000000-0xb000ffff differently
+    # (a zero value is kept): outside the spec's domain, and wild's difference there is the recorded finding props:generic-uint32-range
+    generic = lambda c: any(0xB0000000 <= t <= 0xB000FFFF for (t, sz, v) in c.all_props())
+    idx = [i for i, (c, *_r) in enumerate(info) if c.in_uint32_region() and not generic(c) and not ld_c[i].startswith("skipped") and i not in set(ld_broken)]
     greqs = [info[i][0].request("notes-gnu") for i in idx]
     ctx.differential("gnu-spec-vs-ld", greqs, impl_out=[ld_c[i] for i in idx], nontrivial=lambda l, a, b: True)
 
